@@ -21,7 +21,7 @@
 EXTENDS Integers, Sequences, FiniteSets, TLC
 
 CONSTANTS MaxN,       \* signal and kernel lengths 1..MaxN
-          Basis,      \* "all": every impulse pair, "corners": first and last impulse only
+          Basis,      \* "all": every impulse pair, "corners": first and last impulse only, "lengths": helper facts only
           Variant     \* "fixed" = irfft(..., n=ns), gain reshaped along `axis`; "orig" = tree before the fix:
                       \* commits: irfft without its length (F9), gain[:, newaxis] unless last axis (F14)
 
@@ -53,7 +53,9 @@ NsOptimP(n, v) == Smooth(v) /\ v >= n /\ \A u \in n..(v - 1) : ~Smooth(u)
 (* convolve on the impulse basis: x = e_i (length nsx), w = e_j (length nsw) *)
 Impulses == IF Basis = "all"
             THEN UNION {{<<a, b, c, d>> : <<c, d>> \in (0..(a - 1)) \X (0..(b - 1))} : <<a, b>> \in (1..MaxN) \X (1..MaxN)}
-            ELSE UNION {{<<a, b, 0, 0>>, <<a, b, a - 1, b - 1>>} : <<a, b>> \in (1..MaxN) \X (1..MaxN)}
+            ELSE IF Basis = "corners"
+            THEN UNION {{<<a, b, 0, 0>>, <<a, b, a - 1, b - 1>>} : <<a, b>> \in (1..MaxN) \X (1..MaxN)}
+            ELSE {<<a, 1, 0, 0>> : a \in 1..MaxN}          \* "lengths": one signal per length, kernel of one sample
 
 Init == /\ \E q \in Impulses : nsx = q[1] /\ nsw = q[2] /\ i = q[3] /\ j = q[4]
         /\ mode \in {"full", "same"}
